@@ -64,6 +64,7 @@ type Opts struct {
 	Autoescape bool // vary autoescape attributes
 	Astral     bool
 	MarkupDirs bool // also use changeNewlineToBr / insertWordBreaks
+	Recursion  bool // a recursive template bounded by a decreasing argument, called here and there
 	ErrPlants  bool // plant erroring sub-expressions in positions short-circuit never evaluates
 	LetShadow  bool
 	Globals    bool
@@ -82,13 +83,14 @@ type binding struct {
 
 // G is a generator instance.
 type G struct {
-	R     *fw.Rand
-	O     Opts
-	scope []*binding
-	loops []string // loop variables in scope
-	marks []int    // scope length at the start of each open block
-	echo  []echoExpr
-	nlet  int
+	R         *fw.Rand
+	O         Opts
+	scope     []*binding
+	loops     []string // loop variables in scope
+	marks     []int    // scope length at the start of each open block
+	echo      []echoExpr
+	recTarget string
+	nlet      int
 	// for bundle generation
 	bundle  *ref.Bundle
 	tmpls   []*tmplInfo
@@ -832,6 +834,16 @@ func (g *G) command(depth int) []ref.Node {
 		g.push(&binding{name: name, ty: TStr, kind: "let"})
 		return []ref.Node{n}
 	case 15, 16, 17:
+		if g.O.Recursion && g.recTarget != "" && g.R.P(1, 4) {
+			// recursion bounded by a decreasing argument
+			n := &ref.CallT{Target: g.recTarget, NameSrc: g.recTarget, Params: []ref.Param{{Name: "n", E: lit(ref.Int(int64(g.R.Intn(5))))}}}
+			if g.R.P(1, 3) {
+				if ls := g.refsOf(TList(TInt)); len(ls) > 0 {
+					n.Params[0].E = &ref.Call{Fn: "length", Args: []ref.Expr{g.chooseRef(ls)}}
+				}
+			}
+			return []ref.Node{n}
+		}
 		if c := g.call(depth); c != nil {
 			return []ref.Node{c}
 		}
